@@ -217,6 +217,25 @@ class MarkClock(simnet.SimClock):
         holder["id"] = dc.sim_id
         return dc
 
+    def fire_next(self):
+        """set virtual time EXACTLY to the earliest deadline (no float rounding of now + (deadline - now)) and run
+        what is due"""
+        p = self.pending()
+        if not p:
+            return None
+        self.rightNow = max(self.rightNow, p[0].getTime())
+        self.advance(0)
+        return p[0]
+
+    def tick(self, dt):
+        """advance by dt only if that stays strictly before every deadline (in the float arithmetic advance() uses)"""
+        p = self.pending()
+        for cand in (dt, dt / 2.0, dt / 16.0):
+            if cand > 0 and (not p or self.rightNow + cand < p[0].getTime()):
+                self.advance(cand)
+                return cand
+        return 0.0
+
 
 class RealisticAttempt(simnet.Attempt):
     """A connection attempt that reports cancellation the way Twisted's stock endpoints do (TCP4ClientEndpoint,
@@ -400,8 +419,8 @@ class Impl(object):
                     cur.append(e)
             if cur is not None:
                 groups.append((name, cur))
-            if pre:
-                groups.insert(0, (ev[1], pre))     # should not happen: effects before any call ran
+            if pre or not groups:
+                groups.insert(0, (ev[1], pre))     # should not happen: effects before any call ran / nothing ran
             for n, (t, lg) in enumerate(groups):
                 last = n == len(groups) - 1
                 recs.append(self._record(("timer", t), lg, en, final=last))
@@ -433,12 +452,7 @@ class Impl(object):
         c = self.client
         log = self.log
         if k == "tick":
-            nd = self.next_deadline()
-            dt = ev[1]
-            if nd is not None and dt >= nd * 0.75:      # never reach (or round up to) a deadline
-                dt = nd / 2.0
-            if dt > 0:
-                self.clock.advance(dt)
+            self.clock.tick(ev[1])                      # never reaches (or rounds up to) a deadline
         elif k == "send":
             node, expect, mint = ev[1], ev[2], ev[3]
             try:
@@ -923,6 +937,8 @@ def monitor(cfg, records, which=("C11", "C20")):
                     B("C11_bound", "timer of request %d fired and the request did not fail with RequestTimedOutError: %r" % (d, got))
                 if c11 and cfg["dot"] and req_bc_live(rec, req_bc.get(d)) and not any(o[0] == "lose" for o in outs):
                     B("C11_disconnect_on_timeout", "disconnect_on_timeout: no loseConnection when request %d timed out" % d)
+                if c11 and not cfg["dot"] and any(o[0] == "lose" for o in outs):
+                    B("C11_disconnect_on_timeout", "request %d timed out and the connection was dropped although disconnect_on_timeout is off" % d)
         sync_cancelled = set()
         for o in outs:
             if o[0] == "sched":
@@ -932,6 +948,10 @@ def monitor(cfg, records, which=("C11", "C20")):
                     B("C11_timer_released", "DelayedCall %d cancelled but not armed" % o[1])
                 armed.pop(o[1], None)
                 sync_cancelled.add(o[1])
+        # ---- the bootstrap request is bounded by the same timeout (client.py:1210-1212)
+        if k == "bootok" and c11 and any(o[0] == "bootwrite" for o in outs):
+            if not any(o[0] == "sched" and o[2] == 2 and o[3] == cfg["timeout"] for o in outs):
+                B("C11_bound", "bootstrap request written without a DelayedCall of the client timeout: %r" % (scheds,))
         # ---- API events
         if k == "send":
             raised = [o for o in outs if o[0] == "raised"]
